@@ -323,6 +323,13 @@ EncodeRaw(t) ==
    samp |-> EncodeView([j \in 1..Len(t.samp) |-> Col(t, j)]) @@ [ids |-> t.samp, md |-> MdNames(t, "sample"), gmd |-> <<>>]]
 ModelHdr == [gen |-> "gen", date |-> "d", gmd_obs |-> <<>>, gmd_samp |-> <<>>]
 HNorm(t) == [t EXCEPT !.tid = IF t.tid = "" THEN "No Table ID" ELSE t.tid]
+\* what a correct implementation exports / answers is a function of the content alone
+ExportsOf(t) ==
+  [tsv  |-> [ok |-> TRUE, obs |-> t.obs, samp |-> t.samp, mat |-> t.mat],
+   json |-> [ok |-> TRUE, obs |-> t.obs, samp |-> t.samp, mat |-> t.mat, omd |-> t.omd, smd |-> t.smd, type |-> t.type,
+             shape |-> <<Len(t.obs), Len(t.samp)>>],
+   hdf5 |-> [ok |-> InDomainC01(t), raw |-> EncodeRaw(t), loaded |-> HNorm(t)]]
+QueriesOf(t) == <<"shape", "ids">>
 JNorm(t) == [t EXCEPT !.tid = ""]
 TsvNorm(t, key) ==
   [t EXCEPT !.tid = "", !.type = "", !.smd = NoMd,
@@ -461,6 +468,15 @@ ModelEvent(h, st) ==
           LET e == EqContent(pre, h[a.other]) IN
           Ev(st, h, h, "ok", [eq |-> e, ne |-> ~e, eq_rev |-> e, eq_self |-> TRUE, desc_equal |-> e,
                               eq_again |-> e])
+     [] st.call = "eq3" ->
+          LET ab == EqContent(h["a"], h["b"])
+              bc == EqContent(h["b"], h["c"])
+              ac == EqContent(h["a"], h["c"])
+          IN Ev(st, h, h, "ok", [ab |-> ab, ba |-> ab, bc |-> bc, cb |-> bc, ac |-> ac, ca |-> ac])
+     [] st.call = "eqx" ->
+          LET e == EqContent(pre, h[a.other]) IN
+          Ev(st, h, h, "ok", [eq |-> e, exp_a |-> ExportsOf(pre), exp_b |-> ExportsOf(h[a.other]),
+                              q_a |-> QueriesOf(pre), q_b |-> QueriesOf(h[a.other])])
      [] st.call = "add_metadata" ->
           Ev(st, h, Put(h, st.recv, Fresh(AddMd(pre, a.md, a.axis))), "ok", [none |-> TRUE])
      [] st.call = "del_metadata" ->
@@ -695,6 +711,15 @@ StepsFor(call, h, recv, res, full) ==
             \cup (IF full THEN {St(call, recv, recv, RA(k, "whole", "zz")) : k \in {"sum", "nonzero_counts"}} ELSE {})
     [] call = "probe" -> {St(call, recv, recv, [none |-> TRUE])}
     [] call = "eq" -> IF "b" \in DOMAIN h /\ recv # "b" THEN {St(call, recv, recv, [other |-> "b"])} ELSE {}
+    \* order: in which sequence the driver exports (h, j, t), queries (q) and compares (e) the two live tables
+    [] call = "eq3" -> IF {"a", "b", "c"} \subseteq DOMAIN h /\ recv = "a"
+                       THEN {St(call, recv, recv, [others |-> <<"b", "c">>, order |-> o]) :
+                               o \in {<<"ab", "bc", "ac", "ba", "cb", "ca">>, <<"ca", "cb", "ba", "ac", "bc", "ab">>,
+                                      <<"bc", "ac", "ab", "cb", "ca", "ba">>}}
+                       ELSE {}
+    [] call = "eqx" -> IF "b" \in DOMAIN h /\ recv # "b"
+                       THEN {St(call, recv, recv, [other |-> "b", order |-> o]) : o \in (IF full THEN {"hjtqe", "jthqe", "thjqe", "qehjt", "eqtjh"} ELSE {"hjtqe", "qetjh"})}
+                       ELSE {}
     [] call = "add_metadata" ->
          UNION {
            LET ids == Ids(t, ax)
